@@ -117,9 +117,29 @@ NEEDS = {
  'C18f': ("*above / *below / *centered get category DYNAMICS, which the **dynam importer accepts from the kern parser", "a **dynam / **dyn cell '*above:2', '*centered:1' (parameter the grammar does not consume)"),
  'C19f': ("concat joins with (separator or '')", "separator=None passed explicitly with fragments that do not end in a line break"),
  'C20f': ("store opens (creates / truncates) the target before exporting", "dump with an option set the exporter rejects, to an existing or a fresh path"),
+ 'C01g': ("_add_decoration warns when it drops a repeated signifier", "warnings turned into errors (-W error) and a chord with a signifier on some members only (the normal form repeats it)"),
+ 'C02g': ("import_file(encoding=None): the locale default instead of UTF-8", "a file with non-ASCII text read in a process whose default encoding is not UTF-8"),
+ 'C03g': ("export_string writes the document's spine ids into options.spine_ids when it is None", "one default ExportOptions object reused for a later document with more spines"),
+ 'C04g': ("bekern tokenizer strips decorations on a shallow copy of the chord that shares its note list", "a basic export of a Document followed by a full view of the same Document (chords with signifiers)"),
+ 'C05g': ("BekernTokenizer discards DECORATION from the category set it was given", "one set object of categories used for a basic export and then for another encoding"),
+ 'C06g': ("spine_types query iterates a set of header Nodes (hash = process-wide node id)", ">= 2 selected spines of different types and header node ids that wrap modulo 8 (later documents of a process)"),
+ 'C07g': ("spine history of a from_measure export built by a recursive helper (one frame per stage)", "from_measure whose opening barline lies beyond about line 1000"),
+ 'C08g': ("SignatureNodes default argument {} shared process-wide; empty signatures are falsy", "an earlier import with a signature of kind K, then a **kern spine without kind K, exported with from_measure"),
+ 'C09g': ("pitch lookup table for octaves 0..9 indexed with a negative chroma (wraps around)", "a result below C0 (an octave-0 pitch moved down across the octave)"),
+ 'C10g': ("staff position parsed with a regex that reads one digit", "a note 18 or more steps above (22 below) the bottom line"),
+ 'C11g': ("valid() hands out one module-level set for include=None and an empty exclude", "a caller that empties or edits the set it got back, then any later query with include=None"),
+ 'C12g': ("the final 'lexer errors found' check became an assert", "python -O and a cell whose only defect is a character the lexer cannot tokenise"),
+ 'C13g': ("valid() expands and subtracts in place on a caller's include set", "the same include set object (e.g. BEKERN_CATEGORIES) passed again after a call that combined it with an exclude"),
+ 'C14g': ("next_nodes de-duplicated through set() in the from_measure branch (order by node id)", "a from_measure export of >= 2 spines with different headers, compared with a second import of the same text"),
+ 'C15g': ("to_transposed walks the clone with the recursive Node.dfs", "a score of about 1000 rows or more"),
+ 'C16g': ("accidental text looked up in a table derived from Chromas (no triple sharps)", "exporting a triple-sharp pitch"),
+ 'C17g': ("is_monophonic iterates a recursive generator (one level per row)", "one **kern spine, no chord in the first ~990 rows, a longer document"),
+ 'C18g': ("createImporter warns for unknown spine headers", "warnings turned into errors and a document with an unknown ** header"),
+ 'C19g': ("concat strips the fragments and writes them back into the caller's list", "one list of newline-terminated fragments passed first with the newline separator and then with the empty one"),
+ 'C20g': ("import_file decodes the file in 8192-byte blocks with errors='ignore'", "a file larger than 8 KiB with a multi-byte character across a block boundary"),
 }
-MISSED_FIRST = {'C02a', 'C04a', 'C10a', 'C16a', 'C20a', 'C20b', 'C18b', 'C03d', 'C17e', 'C14e', 'C10e', 'C04e', 'C12e', 'C08e', 'C19e', 'C17f', 'C16f', 'C20f', 'C07f', 'C09f', 'C04f', 'C13f', 'C06f', 'C19f', 'C15f', 'C18f', 'C12f', 'C10f'}
-STRENGTHENED_BEFORE_FIRST_RUN = {'C16b', 'C04b', 'C11b', 'C11c', 'C09c', 'C04c', 'C01c', 'C07d', 'C06d', 'C12d', 'C10d', 'C09e', 'C18e', 'C03e', 'C11e', 'C02e', 'C05f'}
+MISSED_FIRST = {'C02a', 'C04a', 'C10a', 'C16a', 'C20a', 'C20b', 'C18b', 'C03d', 'C17e', 'C14e', 'C10e', 'C04e', 'C12e', 'C08e', 'C19e', 'C17f', 'C16f', 'C20f', 'C07f', 'C09f', 'C04f', 'C13f', 'C06f', 'C19f', 'C15f', 'C18f', 'C12f', 'C10f', 'C20g', 'C15g', 'C19g', 'C01g'}
+STRENGTHENED_BEFORE_FIRST_RUN = {'C16b', 'C04b', 'C11b', 'C11c', 'C09c', 'C04c', 'C01c', 'C07d', 'C06d', 'C12d', 'C10d', 'C09e', 'C18e', 'C03e', 'C11e', 'C02e', 'C05f', 'C11g', 'C02g', 'C18g', 'C04g', 'C07g', 'C12g', 'C17g', 'C13g', 'C03g', 'C05g'}
 HEAD = subprocess.run(['git', '-C', '/repo', 'rev-parse', '--short', 'HEAD'], capture_output=True, text=True).stdout.strip()
 # changes that a later fix: commit in /repo made harmless (kept for the record; they were confirmed and caught at the commit named)
 NEUTRALISED = {
